@@ -1,5 +1,6 @@
 import PPProofs.Props.C01SemDef
 import PPProofs.Props.C01
+import PPProofs.Lemmas.ParseBound
 /-!
 Helper lemmas for `Props/C01Sem.lean`: each loop helper of the transcribed algorithm agrees with the corresponding
 task of the declarative reading, for every behaviour `p` of the sub-expressions that agrees with it.
@@ -642,5 +643,338 @@ theorem Sem.det {g : Grammar} {s : List Char} {t : Task} {r1 : Res} (h1 : Sem g 
     | leaf hl => exact (leaf_wrapped_absurd hl hw).elim
     | wrap hw2 h0 => rw [hw] at hw2; cases hw2; exact ih _ h0
     | _ => simp_all [wrapped]
+
+/-! ### completeness: every result of the reading is returned, given enough fuel -/
+
+
+/-- outcome `o` is exactly the result `r` of the reading (failure locations are diagnostics) -/
+def Ret : Out → Res → Prop
+  | o, some x => o = .ok x.1 x.2
+  | o, none => ∃ l, o = .fail .parse l
+
+theorem Ret.ne_hang {o : Out} {r : Res} (h : Ret o r) : o ≠ .hang := by
+  cases r with
+  | none => obtain ⟨l, rfl⟩ := h; simp
+  | some x => cases h; simp
+
+/-- the same at the level of `parseImpl`, where a terminal reading past the end still shows as `IndexError` -/
+def RetI (s : List Char) (loc : Nat) : Out → Res → Prop
+  | o, some x => o = .ok x.1 x.2
+  | o, none => (∃ l, o = .fail .parse l) ∨ (o = .idx ∧ s.length ≤ loc)
+
+theorem RetI.of_ret {s : List Char} {loc : Nat} {o : Out} {r : Res} (h : Ret o r) : RetI s loc o r := by
+  cases r with
+  | none => exact Or.inl h
+  | some x => exact h
+
+def isStopG (g : Grammar) : Nat → Bool := fun i =>
+  match g[i]? with
+  | some n => (match n.kind with
+    | .errorStop => true
+    | _ => false)
+  | none => false
+
+/-- what completeness means for each kind of task (all locations inside the string: `≤ len + 1`) -/
+def CompleteT (g : Grammar) (s : List Char) : Task → Res → Prop
+  | .node id loc cp, r => loc ≤ s.length + 1 → ∃ f, ∀ a, Ret (parse g s f id loc a cp) r
+  | .impl nd loc, r => plainNode nd = true → loc ≤ s.length + 1 →
+      ∃ f, ∀ a, RetI s loc (parseImpl g (parse g s f) nd s loc a) r
+  | .seq es loc acc, r => loc ≤ s.length + 1 →
+      ∃ f, ∀ a, Ret (andRest (parse g s f) (isStopG g) a s.length es false loc acc) r
+  | .alt es loc, r => loc ≤ s.length + 1 → ∃ f, ∀ a mx, Ret (mfGo (parse g s f) a s.length loc es mx) r
+  | .star e loc acc, r => loc ≤ s.length + 1 →
+      ∃ f, ∀ a (nd : Node) k, nd.ignore = [] → s.length + 2 - loc ≤ k →
+        Ret (manyLoop (parse g s f) nd a s.length e none k loc acc) r
+
+theorem isStopG_false {g : Grammar} (hg : Plain g) (e : Nat) : isStopG g e = false := isStop_false hg e
+
+theorem parse_lift {g : Grammar} {s : List Char} {f id loc : Nat} {a cp : Bool} {o : Out} (k : Nat)
+    (h : parse g s f id loc a cp = o) (hn : o ≠ .hang) : parse g s (f + k) id loc a cp = o :=
+  parse_mono g s f k id loc a cp o h hn
+
+theorem parse_lift' {g : Grammar} {s : List Char} {f id loc : Nat} {a cp : Bool} {o : Out} (k : Nat)
+    (h : parse g s f id loc a cp = o) (hn : o ≠ .hang) : parse g s (k + f) id loc a cp = o := by
+  rw [Nat.add_comm]; exact parse_lift k h hn
+
+theorem ok_le {g : Grammar} {s : List Char} {f id loc l : Nat} {a cp : Bool} {ts : List Tok}
+    (h : parse g s f id loc a cp = .ok l ts) (hl : loc ≤ s.length + 1) : l ≤ s.length + 1 := by
+  have := parse_bnd g s f id loc a cp hl
+  rw [h] at this; exact this
+
+theorem plain_acts {nd : Node} (hn : plainNode nd = true) : nd.acts = [] := by
+  simp only [plainNode, Bool.and_eq_true, List.isEmpty_iff] at hn; exact hn.1.2
+theorem plain_ign {nd : Node} (hn : plainNode nd = true) : nd.ignore = [] := by
+  simp only [plainNode, Bool.and_eq_true, List.isEmpty_iff] at hn; exact hn.2
+
+theorem startAt_le (nd : Node) (s : List Char) (loc : Nat) (cp : Bool) (hl : loc ≤ s.length + 1) :
+    startAt nd s loc cp ≤ s.length + 1 := by
+  unfold startAt
+  split
+  · exact skipWhite_le _ _ _ _ (by omega) hl
+  · exact hl
+
+theorem leaf_nohang {g : Grammar} {p : P} {nd : Node} {s : List Char} {loc : Nat} {r : Res} (a : Bool)
+    (hl : leafSem nd.kind s loc = some r) : parseImpl g p nd s loc a ≠ .hang := by
+  unfold parseImpl
+  cases hk : nd.kind <;> simp only [hk, leafSem, termImpl, Option.map_none, reduceCtorEq] at hl ⊢
+  case lit m =>
+    unfold litImpl
+    split
+    · simp
+    · split <;> simp
+  case lit1 c =>
+    unfold lit1Impl
+    split
+    · simp
+    · split <;> simp
+  case empty => simp
+  case noMatch => simp
+  case stringEnd =>
+    unfold stringEndImpl
+    split
+    · simp
+    · split <;> simp
+  case caselessLit mU ret => exact (caselessLit_ok ..).2.2
+  case keyword m i c => exact (keyword_ok ..).2.2
+  case word i b mn mx ms kw re =>
+    split
+    · exact (wordRe_ok ..).2.2
+    · exact (wordSlow_ok ..).2.2
+  case charsNotIn n mn mx => exact (charsNotIn_ok ..).2.2
+  case lineEnd => exact (lineEnd_ok ..).2.2
+  case wordStart cs => exact (wordStart_ok ..).2.2
+  case wordEnd cs => exact (wordEnd_ok ..).2.2
+
+theorem agreeP_zero (g : Grammar) (s : List Char) : AgreeP g s (parse g s 0) := fun _ _ _ _ => trivial
+
+theorem Sem.complete {g : Grammar} {s : List Char} (hg : Plain g) {t : Task} {r : Res} (h : Sem g s t r) :
+    CompleteT g s t r := by
+  induction h with
+  | @node id loc cp nd r hgi _ ih =>
+    intro hl
+    have hn := hg nd (List.mem_of_getElem? hgi)
+    obtain ⟨f, hf⟩ := ih hn (startAt_le nd s loc cp hl)
+    refine ⟨f + 1, fun a => ?_⟩
+    show Ret (parseStep g s (parse g s f) id loc a cp) _
+    unfold parseStep
+    simp only [hgi, pre_eq_startAt _ nd hn, plain_acts hn, List.isEmpty_nil, Bool.not_true, Bool.false_and,
+      Bool.false_eq_true, if_false]
+    have h1 := hf a
+    cases r with
+    | some x =>
+      simp only [RetI] at h1
+      rw [h1]; simp [Ret]
+    | none =>
+      simp only [RetI] at h1
+      rcases h1 with ⟨l, h1⟩ | ⟨h1, hlen⟩
+      · rw [h1]; exact ⟨l, rfl⟩
+      · rw [h1]
+        have : (nd.mayIdx || decide (startAt nd s loc cp ≥ s.length)) = true := by simp [hlen]
+        simp only [this, if_true]
+        exact ⟨_, rfl⟩
+  | @leaf nd loc r hl =>
+    intro hn _
+    refine ⟨0, fun a => ?_⟩
+    have hs := parseImpl_sound hg (agreeP_zero g s) nd hn loc a
+    have hnh := leaf_nohang (g := g) (p := parse g s 0) a hl
+    cases ho : parseImpl g (parse g s 0) nd s loc a with
+    | ok e ts =>
+      rw [ho] at hs
+      have := Sem.det (Sem.leaf hl) _ hs
+      subst this; rfl
+    | fail c l =>
+      rw [ho] at hs
+      have := Sem.det (Sem.leaf hl) _ hs.2
+      subst this; exact Or.inl ⟨l, by rw [hs.1]⟩
+    | idx =>
+      rw [ho] at hs
+      have := Sem.det (Sem.leaf hl) _ hs.2
+      subst this; exact Or.inr ⟨rfl, hs.1⟩
+    | hang => exact absurd ho hnh
+  | @andFail nd loc e0 rest hk _ ih =>
+    intro hn hl
+    obtain ⟨f, hf⟩ := ih hl
+    refine ⟨f, fun a => ?_⟩
+    obtain ⟨l, h1⟩ := hf a
+    unfold parseImpl
+    simp only [hk, andImpl, h1]
+    exact Or.inl ⟨l, rfl⟩
+  | @andOk nd loc e0 rest l ts r hk _ _ ih0 ih1 =>
+    intro hn hl
+    obtain ⟨f0, hf0⟩ := ih0 hl
+    have hl1 : l ≤ s.length + 1 := ok_le (hf0 true) hl
+    obtain ⟨f1, hf1⟩ := ih1 hl1
+    refine ⟨f0 + f1, fun a => ?_⟩
+    unfold parseImpl
+    simp only [hk, andImpl, parse_lift f1 (hf0 a) (by simp)]
+    apply RetI.of_ret
+    have h2 := hf1 a
+    have := andRest_mono (parse_mono g s f1 f0) (isStopG g) a s.length rest false l ts h2.ne_hang
+    rw [Nat.add_comm f1 f0] at this
+    show Ret (andRest (parse g s (f0 + f1)) (isStopG g) a s.length rest false l ts) r
+    rw [this]; exact h2
+  | @seqNil loc acc => intro _; exact ⟨0, fun a => rfl⟩
+  | @seqFail e es loc acc _ ih =>
+    intro hl
+    obtain ⟨f, hf⟩ := ih hl
+    refine ⟨f, fun a => ?_⟩
+    obtain ⟨l, h1⟩ := hf a
+    unfold andRest
+    simp only [isStopG_false hg e, Bool.false_eq_true, if_false, h1]
+    exact ⟨l, rfl⟩
+  | @seqOk e es loc acc l ts r _ _ ih0 ih1 =>
+    intro hl
+    obtain ⟨f0, hf0⟩ := ih0 hl
+    have hl1 : l ≤ s.length + 1 := ok_le (hf0 true) hl
+    obtain ⟨f1, hf1⟩ := ih1 hl1
+    refine ⟨f0 + f1, fun a => ?_⟩
+    unfold andRest
+    simp only [isStopG_false hg e, Bool.false_eq_true, if_false, parse_lift f1 (hf0 a) (by simp)]
+    have h2 := hf1 a
+    have := andRest_mono (parse_mono g s f1 f0) (isStopG g) a s.length es false l (acc ++ ts) h2.ne_hang
+    rw [Nat.add_comm f1 f0] at this
+    show Ret (andRest (parse g s (f0 + f1)) (isStopG g) a s.length es false l (acc ++ ts)) r
+    rw [this]; exact h2
+  | @matchFirst nd loc es r hk _ ih =>
+    intro hn hl
+    obtain ⟨f, hf⟩ := ih hl
+    refine ⟨f, fun a => ?_⟩
+    unfold parseImpl
+    simp only [hk]
+    exact RetI.of_ret (hf a none)
+  | @altNil loc =>
+    intro _
+    refine ⟨0, fun a mx => ?_⟩
+    cases mx <;> exact ⟨_, rfl⟩
+  | @altOk e es loc x _ ih =>
+    intro hl
+    obtain ⟨f, hf⟩ := ih hl
+    refine ⟨f, fun a mx => ?_⟩
+    have h1 : parse g s f e loc a true = .ok x.1 x.2 := hf a
+    unfold mfGo
+    simp only [h1]
+    rfl
+  | @altNext e es loc r _ _ ih0 ih1 =>
+    intro hl
+    obtain ⟨f0, hf0⟩ := ih0 hl
+    obtain ⟨f1, hf1⟩ := ih1 hl
+    refine ⟨f0 + f1, fun a mx => ?_⟩
+    obtain ⟨l, h1⟩ := hf0 a
+    unfold mfGo
+    simp only [parse_lift f1 h1 (by simp)]
+    have key : ∀ mx', Ret (mfGo (parse g s (f0 + f1)) a s.length loc es mx') r := fun mx' => by
+      have h2 := hf1 a mx'
+      have := mfGo_mono (parse_mono g s f1 f0) a s.length loc es mx' h2.ne_hang
+      rw [Nat.add_comm f1 f0] at this
+      rw [this]; exact h2
+    exact key _
+  | @opt nd loc e r hk _ ih =>
+    intro hn hl
+    obtain ⟨f, hf⟩ := ih hl
+    refine ⟨f, fun a => ?_⟩
+    have h1 := hf a
+    unfold parseImpl
+    simp only [hk]
+    cases r with
+    | some x => simp only [Ret] at h1; rw [h1]; rfl
+    | none =>
+      obtain ⟨l, h1⟩ := h1
+      have : optNoMatch nd (optDefault g e none) = [] := by simp [optNoMatch, optDefault, plain_acts hn]
+      rw [h1]; simp only [this]; rfl
+  | @manyFail nd loc e one hk _ ih =>
+    intro hn hl
+    obtain ⟨f, hf⟩ := ih hl
+    refine ⟨f, fun a => ?_⟩
+    obtain ⟨l, h1⟩ := hf a
+    have hm : manyImpl (parse g s f) nd a s.length e none loc = .fail .parse l := by
+      unfold manyImpl; simp only [h1]
+    unfold parseImpl
+    simp only [hk, hm]
+    cases one with
+    | true => exact Or.inl ⟨l, rfl⟩
+    | false => rfl
+  | @manyOk nd loc e one l ts r hk _ hstar ih0 ih1 =>
+    intro hn hl
+    obtain ⟨f0, hf0⟩ := ih0 hl
+    have hl1 : l ≤ s.length + 1 := ok_le (hf0 true) hl
+    obtain ⟨f1, hf1⟩ := ih1 hl1
+    refine ⟨f0 + f1, fun a => ?_⟩
+    have h2 := hf1 a nd (s.length + 2) (plain_ign hn) (by omega)
+    have hmono := manyLoop_mono (parse_mono g s f1 f0) nd a s.length e none (s.length + 2) l ts h2.ne_hang
+    rw [Nat.add_comm f1 f0] at hmono
+    have hm : manyImpl (parse g s (f0 + f1)) nd a s.length e none loc =
+        manyLoop (parse g s f1) nd a s.length e none (s.length + 2) l ts := by
+      unfold manyImpl; simp only [parse_lift f1 (hf0 a) (by simp)]; exact hmono
+    obtain ⟨x, rfl⟩ : ∃ x, r = some x := by
+      cases r with
+      | none => exact absurd rfl (star_ne_none hstar _ _ _ rfl)
+      | some x => exact ⟨x, rfl⟩
+    simp only [Ret] at h2
+    unfold parseImpl
+    simp only [hk, hm, h2]
+    cases one <;> rfl
+  | @starStop e loc acc _ ih =>
+    intro hl
+    obtain ⟨f, hf⟩ := ih hl
+    refine ⟨f, fun a nd k hi hk => ?_⟩
+    obtain ⟨l, h1⟩ := hf a
+    obtain ⟨k, rfl⟩ : ∃ k', k = k' + 1 := ⟨k - 1, by omega⟩
+    unfold manyLoop
+    simp only [stopCheck, manyPre, hi, List.isEmpty_nil, if_true, h1]
+    rfl
+  | @starStep e loc acc l ts r _ hlt _ ih0 ih1 =>
+    intro hl
+    obtain ⟨f0, hf0⟩ := ih0 hl
+    have hl1 : l ≤ s.length + 1 := ok_le (hf0 true) hl
+    obtain ⟨f1, hf1⟩ := ih1 hl1
+    refine ⟨f0 + f1, fun a nd k hi hk => ?_⟩
+    obtain ⟨k, rfl⟩ : ∃ k', k = k' + 1 := ⟨k - 1, by omega⟩
+    have h2 := hf1 a nd k hi (by omega)
+    have hmono := manyLoop_mono (parse_mono g s f1 f0) nd a s.length e none k l (acc ++ ts) h2.ne_hang
+    rw [Nat.add_comm f1 f0] at hmono
+    unfold manyLoop
+    simp only [stopCheck, manyPre, hi, List.isEmpty_nil, if_true, parse_lift f1 (hf0 a) (by simp)]
+    have : ¬ l ≤ loc := by omega
+    simp only [this, if_false]
+    rw [hmono]; exact h2
+  | @notAny nd loc e r hk _ ih =>
+    intro hn hl
+    obtain ⟨f, hf⟩ := ih hl
+    refine ⟨f, fun a => ?_⟩
+    have h1 := hf a
+    unfold parseImpl
+    simp only [hk, canParseNext, tryParse]
+    cases r with
+    | some x => simp only [Ret] at h1; rw [h1]; exact Or.inl ⟨loc, rfl⟩
+    | none => obtain ⟨l, h1⟩ := h1; rw [h1]; rfl
+  | @followedBy nd loc e r hk _ ih =>
+    intro hn hl
+    obtain ⟨f, hf⟩ := ih hl
+    refine ⟨f, fun a => ?_⟩
+    have h1 := hf a
+    unfold parseImpl
+    simp only [hk]
+    cases r with
+    | some x => simp only [Ret] at h1; rw [h1]; rfl
+    | none => obtain ⟨l, h1⟩ := h1; rw [h1]; exact Or.inl ⟨l, rfl⟩
+  | @wrap nd loc e r hw _ ih =>
+    intro hn hl
+    obtain ⟨f, hf⟩ := ih hl
+    refine ⟨f, fun a => ?_⟩
+    have h1 := hf a
+    have he : parseImpl g (parse g s f) nd s loc a = enhanceImpl (parse g s f) a (some e) loc := by
+      unfold parseImpl
+      cases hk : nd.kind with
+      | forward e' =>
+        cases e' with
+        | none => simp [wrapped, hk] at hw
+        | some e' => simp only [wrapped, hk, Option.some.injEq] at hw; subst hw; rfl
+      | _ => simp_all [wrapped]
+    rw [he]
+    unfold enhanceImpl
+    cases r with
+    | some x => simp only [Ret] at h1; simp only [h1]; rfl
+    | none => obtain ⟨l, h1⟩ := h1; simp only [h1]; exact Or.inl ⟨_, rfl⟩
+
 
 end PP.Parse
